@@ -122,6 +122,28 @@ var table = func() string { var ks []string; for k := range m { ks = append(ks, 
 		{"overwrite inside map iteration", `package p
 var m = map[string]string{"a": "x", "b": "x"}
 var table = func() map[string]string { o := map[string]string{}; for k, v := range m { o[v] = k }; return o }()`, "", "depends on iteration order"},
+		{"closure writes an outer variable in map order", `package p
+var m = map[string]int{"a": 1, "b": 2}
+var table = func() string { last := ""; set := func(k string) { last = k }; for k := range m { set(k) }; return last }()`, "", "depends on iteration order"},
+		{"length of the slice being built, read inside the map iteration", `package p
+var m = map[string]int{"a": 1, "b": 2}
+var table = func() []int { var ks []string; var ns []int; for k := range m { ns = append(ns, len(ks)); ks = append(ks, k) }; return ns }()`, "", "depends on iteration order"},
+		{"map being built, read inside the map iteration", `package p
+var m = map[string]int{"a": 1, "b": 2}
+var table = func() []int { o := map[string]int{}; var ns []int; for k := range m { ns = append(ns, len(o)); o[k] = 1 }; return ns }()`, "", "depends on iteration order"},
+		{"counter read inside the map iteration", `package p
+var m = map[string]int{"a": 1, "b": 2}
+var table = func() map[string]int { o := map[string]int{}; n := 0; for k := range m { o[k] = n; n++ }; return o }()`, "", "depends on iteration order"},
+		{"counter, copy and key list read after the map iteration", `package p
+import "sort"
+var m = map[string]int{"a": 1, "b": 2}
+var table = func() []string {
+	o := map[string]int{}; n := 0; var ks []string
+	for k, v := range m { o[k] = v; n++; ks = append(ks, k) }
+	sort.Strings(ks)
+	if n != len(o) || len(ks) != 2 { return nil }
+	return ks
+}()`, `["a", "b"]`, ""},
 		{"aliasing appends", `package p
 var table = func() []string {
 	a := make([]string, 0, 4)
